@@ -803,7 +803,7 @@ class Gen:
             self.emit_line(indent, "def %s(%s):" % (wname, inner_params))
             self.emit_line(indent + 1, "return %s(%s)" % (name, ", ".join([str(r.randint(0, 6))] + [p[0] for p in params])))
             cap = f.captured
-            f = Fn(wname, params, ret, f.mut_params and [i - 1 for i in f.mut_params], f.mut_groups)
+            f = Fn(wname, [(pn, pt, False) for (pn, pt, _) in params], ret, f.mut_params and [i - 1 for i in f.mut_params], f.mut_groups)
             f.captured = cap
         if f.mut_params:
             # calls must pass unlocked, own containers: handled in call_stmt; not usable in pure expressions
